@@ -17,6 +17,7 @@ import (
 	"strings"
 	"sync"
 	"sync/atomic"
+	"unsafe"
 
 	"github.com/semafind/semadb/diskstore"
 )
@@ -95,6 +96,14 @@ type Proxy struct {
 	armed     bool
 	snapAll   bool
 	snapLabel []string
+
+	// TrackValues: remember the memory ranges of the values handed out by Get
+	// in read-only transactions, so that a harness can tell (without touching
+	// the memory) whether something it was given still points into a
+	// transaction that has ended.
+	TrackValues bool
+	liveRanges  map[int][][2]uintptr
+	deadRanges  [][2]uintptr
 
 	// Hook, when set, is called before every operation (scheduling point).
 	Hook func(Point)
@@ -287,7 +296,35 @@ func (p *Proxy) begin(writable bool) *txState {
 	return tx
 }
 
+// AliasesEndedTx reports whether b points into a value that a read-only
+// transaction handed out and that transaction has ended (bbolt: "the returned
+// value is only valid for the life of the transaction"). It does not touch
+// the memory.
+func (p *Proxy) AliasesEndedTx(b []byte) bool {
+	if len(b) == 0 {
+		return false
+	}
+	ptr := uintptr(unsafe.Pointer(&b[0]))
+	p.mu.Lock()
+	defer p.mu.Unlock()
+	for _, r := range p.deadRanges {
+		if ptr >= r[0] && ptr < r[1] {
+			return true
+		}
+	}
+	return false
+}
+
 func (p *Proxy) finish(tx *txState) {
+	if p.TrackValues {
+		p.mu.Lock()
+		p.deadRanges = append(p.deadRanges, p.liveRanges[tx.id]...)
+		delete(p.liveRanges, tx.id)
+		if len(p.deadRanges) > 4096 {
+			p.deadRanges = p.deadRanges[len(p.deadRanges)-4096:]
+		}
+		p.mu.Unlock()
+	}
 	tx.ended.Store(true)
 	for tx.inflight.Load() > 0 {
 		runtime.Gosched()
@@ -397,7 +434,17 @@ func (b *bucketProxy) Get(k []byte) []byte {
 		return nil
 	}
 	defer b.p.done(b.tx)
-	return b.inner.Get(k)
+	v := b.inner.Get(k)
+	if b.p.TrackValues && !b.tx.writable && len(v) > 0 {
+		b.p.mu.Lock()
+		if b.p.liveRanges == nil {
+			b.p.liveRanges = map[int][][2]uintptr{}
+		}
+		start := uintptr(unsafe.Pointer(&v[0]))
+		b.p.liveRanges[b.tx.id] = append(b.p.liveRanges[b.tx.id], [2]uintptr{start, start + uintptr(len(v))})
+		b.p.mu.Unlock()
+	}
+	return v
 }
 
 func (b *bucketProxy) Put(k, v []byte) error {
